@@ -149,7 +149,21 @@ class CSSStyleSheet(cssutils.stylesheets.StyleSheet):
         "Textual representation of the stylesheet (a byte string)."
         return cssutils.ser.do_CSSStyleSheet(self)
 
-    def _setCssText(self, cssText):  # noqa: C901
+    def _setCssText(self, cssText):
+        """Parse `cssText` and overwrites the whole stylesheet; a rejected
+        text leaves the sheet as it was.
+        See :meth:`_parseCssText` for the parameter and the exceptions.
+        """
+        old = self._cssRules, self._namespaces, self._variables
+        try:
+            self._parseCssText(cssText)
+        except BaseException:
+            # raised from inside the parse (e.g. by the log in raising mode):
+            # rules, namespaces and variables are only partly built
+            self._cssRules, self._namespaces, self._variables = old
+            raise
+
+    def _parseCssText(self, cssText):  # noqa: C901
         """Parse `cssText` and overwrites the whole stylesheet.
 
         :param cssText:
@@ -436,6 +450,7 @@ class CSSStyleSheet(cssutils.stylesheets.StyleSheet):
         If `encoding` is None removes charsetrule if present resulting in
         default encoding of utf-8.
         """
+        self._checkReadonly()
         try:
             rule = self._cssRules[0]
         except IndexError:
